@@ -43,6 +43,8 @@ func init() {
 			{ID: "C16-R19", Title: "snapshot iterators skip removed keys", Floor: 2, Run: snapshotIteratorsSkipRemovedKeys},
 			{ID: "C16-R20", Title: "lists do not share storage", Floor: 1, Run: listsDoNotShareStorage},
 			{ID: "C16-R21", Title: "presence is not decided by nil", Floor: 1, Run: presenceIsNotDecidedByNil},
+			{ID: "C16-R22", Title: "immutable values are not written by their methods", Floor: 50, Run: immutableValuesAreNotWrittenByTheirMethods},
+			{ID: "C16-R23", Title: "script numbers are narrowed only under a range test (shared with C08-R15)", Floor: 10, Run: converterNarrowingIsRangeChecked},
 		},
 	})
 }
